@@ -31,17 +31,18 @@ var props = map[string]*propSpec{}
 
 // explainMore: clauses added after the explanation texts in the props_*.go files were written (seed round 9).
 var explainMore = map[string]string{
+	"C12": " Also decided (seed round 10): no package-level lock is or may be held across a call that takes it again or across unseen code (LK-REENT); atomics and sync.Map are shared state (LK-GLOBAL); CD-PURE.",
 	"C01": " Also decided (seed round 9): the address of every item the array codec writes depends on every loop the write sits in (WA-IDX).",
-	"C02": " Also decided (seed round 9): WA-IDX.",
-	"C03": " Also decided (seed round 9): the bank's slot discipline, including that no pointer into the growable arena table is kept (AL-BUMP, AL-CLR, AL-CLOSE, AL-STALE).",
+	"C02": " Also decided (seed round 9): WA-IDX. Also decided (seed round 10): BT-WIDTH, signedness included.",
+	"C03": " Also decided (seed round 9): the bank's slot discipline, including that no pointer into the growable arena table is kept (AL-BUMP, AL-CLR, AL-CLOSE, AL-STALE). Also decided (seed round 10): codec methods reach no mutable package state (CD-PURE).",
 	"C05": " Also decided (seed round 9): the registries are read by exact-key lookup only, so a registered builder is never handed another type (REG-EXACT).",
 	"C09": " Also decided (seed round 9): the threshold is the constructor's block-size parameter, stored unchanged (ENC-SIZE).",
-	"C11": " Also decided (seed round 9): a bank handed out is no longer the reader's and only Close pools a bank (OD-BANK, AL-OWNER).",
-	"C13": " Also decided (seed round 9): WA-WR and WA-SPEC-W for all 27 codec types, WA-IDX, and floor division of time-derived counts (TS-FLOOR).",
-	"C14": " Also decided (seed round 9): the JSON tags carry no option that changes name matching (JS-TAG-OPT).",
+	"C11": " Also decided (seed round 9): a bank handed out is no longer the reader's and only Close pools a bank (OD-BANK, AL-OWNER). Also decided (seed round 10): AL-STALE through helper results.",
+	"C13": " Also decided (seed round 9): WA-WR and WA-SPEC-W for all 27 codec types, WA-IDX, and floor division of time-derived counts (TS-FLOOR). Also decided (seed round 10): CD-PURE.",
+	"C14": " Also decided (seed round 9): the JSON tags carry no option that changes name matching (JS-TAG-OPT). Also decided (seed round 10): the parser's own refusals are on the token kind only (JS-ACCEPT).",
 	"C15": " Also decided (seed round 9): REG-EXACT for the schema registry.",
-	"C19": " Also decided (seed round 9): Read refuses a decoded integer only on a comparison with MaxInt64/mult or MinInt64/mult, anything else being undecided (TS-TOTAL); quotients of time-derived counts are floor-corrected (TS-FLOOR).",
-	"C20": " Also decided (seed round 9): REG-EXACT; RegisterCodecs registers unconditionally on every call (REG-ALWAYS).",
+	"C19": " Also decided (seed round 9): Read refuses a decoded integer only on a comparison with MaxInt64/mult or MinInt64/mult, anything else being undecided (TS-TOTAL); quotients of time-derived counts are floor-corrected (TS-FLOOR). Also decided (seed round 10): the time codecs reach no package state besides the locked zone cache (CD-PURE).",
+	"C20": " Also decided (seed round 9): REG-EXACT; RegisterCodecs registers unconditionally on every call (REG-ALWAYS). Also decided (seed round 10): OM-ZERO.",
 }
 
 func register(id, explanation string, run func(c *Ctx)) {
@@ -108,6 +109,11 @@ func main() {
 		}
 		rs, ok := registrationsByFold(P)
 		fmt.Printf("registrationsByFold ok=%v n=%d\n", ok, len(rs))
+		return
+	}
+	if os.Getenv("AVROCHECK_BLOCKFOLD") != "" {
+		r := blockByFold(P)
+		fmt.Printf("block fold ok=%v why=%q problems=%v detail=%q\n", r.ok, r.why, r.problems, r.detail)
 		return
 	}
 	if os.Getenv("AVROCHECK_ALFOLD") != "" {
